@@ -244,10 +244,10 @@ def judge_general(case):
 
 
 SUBS = [
-    Sub("simultaneous", judge_simultaneous, rec_case(), quick=120, thorough=3000,
+    Sub("simultaneous", judge_simultaneous, rec_case(), quick=120, thorough=9000,
         rule="fdd.SD_PreGER on setups cut from one recording equals fdd.SD_est([refs; roving...], refs) with the same nxseg/pov/method, same frequency grid"),
-    Sub("classes", judge_class, rec_case("class"), quick=180, thorough=2500,
+    Sub("classes", judge_class, rec_case("class"), quick=180, thorough=7500,
         rule="FDD_MS / EFDD_MS / pLSCF_MS .result.{freq,Sy} through MultiSetup_PreGER.run_all (reference columns anywhere) equal the single-setup matrix"),
-    Sub("general", judge_general, rec_case(), quick=100, thorough=2500,
+    Sub("general", judge_general, rec_case(), quick=100, thorough=7500,
         rule="independent setups: reference block = mean of per-setup blocks, roving block = G_mov,ref G_ref,ref^-1 mean; scaling one setup by g changes only the mean reference block by (g^2-1)/n G_i"),
 ]
